@@ -784,6 +784,27 @@ def importsFold : List ImpSrc → List (String × ImportVal) → Except Err (Lis
     | .ok imps' => importsFold t imps'
     | .error e => .error e
 
+/-- For every declarator of the later sections, the visibility of the section it stands in. -/
+def Sections.declVis : Sections → List Vis
+  | .nil => []
+  | .elems v es t => List.replicate es.declCount v ++ t.declVis
+  | .eqs _ _ t => t.declVis
+  | .algs _ _ t => t.declVis
+
+/-- For every declarator of the class, the visibility its section gives it (`private` is pymoca's
+    name for "the leading, unlabelled element list"). -/
+def ClassSrc.declVis : ClassSrc → List Vis
+  | .mk _ first ss => List.replicate first.declCount .priv ++ ss.declVis
+
+def Sections.extVis : Sections → List Vis
+  | .nil => []
+  | .elems v es t => List.replicate es.exts.length v ++ t.extVis
+  | .eqs _ _ t => t.extVis
+  | .algs _ _ t => t.extVis
+
+def ClassSrc.extVis : ClassSrc → List Vis
+  | .mk _ first ss => List.replicate first.exts.length .priv ++ ss.extVis
+
 /-- Equations (`alg = false`) or statements (`alg = true`) of the sections with the given `initial`
     flag, concatenated in source order. -/
 def Sections.items (alg initial : Bool) : Sections → List String
@@ -809,6 +830,31 @@ def Sections.nested : Sections → List (ClassSrc ⊕ ShortSrc)
 
 def ClassSrc.nested : ClassSrc → List (ClassSrc ⊕ ShortSrc)
   | .mk _ first ss => first.nested ++ ss.nested
+
+mutual
+/-- A class description and every class description nested in it (long form), in source order. -/
+def ClassSrc.deep : ClassSrc → List ClassSrc
+  | .mk h first ss => .mk h first ss :: (first.deep ++ ss.deep)
+def Elems.deep : Elems → List ClassSrc
+  | .nil => []
+  | .comp _ t => t.deep
+  | .ext _ t => t.deep
+  | .imp _ t => t.deep
+  | .cls c t => c.deep ++ t.deep
+  | .short _ t => t.deep
+def Sections.deep : Sections → List ClassSrc
+  | .nil => []
+  | .elems _ es t => es.deep ++ t.deep
+  | .eqs _ _ t => t.deep
+  | .algs _ _ t => t.deep
+end
+
+def ClassSrc.name : ClassSrc → String
+  | .mk h _ _ => h.name
+
+def nestedName : ClassSrc ⊕ ShortSrc → String
+  | .inl c => c.name
+  | .inr s => s.name
 
 mutual
 /-- Every symbol of a class and of the classes nested in it. -/
